@@ -7,7 +7,7 @@
 (***************************************************************************)
 EXTENDS TraceBase, Wire
 
-VARIABLES l, bad, cnt
+VARIABLES tl, tBad, tCnt
 
 H(s)  == HexToInt(s)
 HB(s) == HexToBytes(s)
@@ -75,19 +75,19 @@ Verdict(ev) ==
             (IF d[1] = "ok" THEN (IF Len(b) < 60 THEN {"spki_ok_cmp"} ELSE {"spki_ok_unc"}) ELSE {"spki_bad"})
             \cup (IF Has(ev, "cls") THEN {ev.cls} ELSE {}) >>
 
-Init == l = 1 /\ bad = 0 /\ cnt = [k \in Classes \cup {"_any"} |-> 0]
+Init == tl = 1 /\ tBad = 0 /\ tCnt = [k \in Classes \cup {"_any"} |-> 0]
 
 Step ==
-  /\ l <= NLog
-  /\ LET ev == Log[l]
+  /\ tl <= NLog
+  /\ LET ev == Log[tl]
          v  == Verdict(ev)
-     IN  /\ bad' = IF v[1] THEN bad ELSE bad + 1
-         /\ (IF v[1] THEN TRUE ELSE Mismatch(l, ev))
-         /\ cnt' = BumpAll(cnt, v[2] \cap Classes)
-  /\ l' = l + 1
+     IN  /\ tBad' = IF v[1] THEN tBad ELSE tBad + 1
+         /\ (IF v[1] THEN TRUE ELSE Mismatch(tl, ev))
+         /\ tCnt' = BumpAll(tCnt, v[2] \cap Classes)
+  /\ tl' = tl + 1
 
-Finish == l = NLog + 1 /\ Done(l, bad, cnt) /\ l' = l + 1 /\ UNCHANGED <<bad, cnt>>
+Finish == tl = NLog + 1 /\ Done(tl, tBad, tCnt) /\ tl' = tl + 1 /\ UNCHANGED <<tBad, tCnt>>
 
 Next == Step \/ Finish
-Spec == Init /\ [][Next]_<<l, bad, cnt>>
+Spec == Init /\ [][Next]_<<tl, tBad, tCnt>>
 =============================================================================
